@@ -824,6 +824,9 @@ class PartitionBulkIndexParamSource:
 
     @property
     def percent_completed(self):
+        if self.looped:
+            # the corpus is ingested over and over again: there is no end that we could progress to (and progress must not jump back)
+            return None
         return self.current_bulk / self.total_bulks
 
 
